@@ -25,3 +25,11 @@ pub assume_specification[ <std::io::Error as From<std::io::ErrorKind>>::from ](k
 //@trusted std::io::Error: opaque; `Error::from(kind).kind() == kind` (std documentation)
 
 pub uninterp spec fn nz_value(n: std::num::NonZeroUsize) -> usize;
+
+pub assume_specification<T, const N: usize> [<[T; N] as AsMut<[T]>>::as_mut] (a: &mut [T; N]) -> (r: &mut [T])
+    ensures r@ == old(a)@, final(a)@ == final(r)@;
+//@trusted std: <[T;N] as AsMut<[T]>>::as_mut reborrows the whole array as a slice (std documentation)
+
+pub assume_specification<Idx: Clone> [<core::ops::Range<Idx> as Clone>::clone] (a: &core::ops::Range<Idx>) -> (r: core::ops::Range<Idx>)
+    ensures call_ensures(Idx::clone, (&a.start,), r.start), call_ensures(Idx::clone, (&a.end,), r.end);
+//@trusted std: Range<Idx>::clone() clones both bounds (std documentation)
